@@ -1240,7 +1240,8 @@ class Manifest:
         """
         for target in self._manifest:
             source = self._manifest[target]
-            if os.path.isabs(target):
+            if os.path.isabs(target) or os.path.normpath(target).split(os.path.sep)[0] == os.path.pardir:
+                # VV: targets must be paths inside the instance directory (neither absolute nor climbing out of it)
                 raise experiment.model.errors.FlowIRManifestKeyIsAbsolutePath(target)
             try:
                 _, method = source.rsplit(':', 1)
